@@ -110,9 +110,11 @@ func VerifC11Getline() {
 		`getline x`,       // x, NR, FNR
 		`getline < "o"`,   // $0, NF
 		`getline`,         // $0, NF, NR, FNR
+		`getline $2 < "o"`, // only field 2 (and with it $0 and NF), not NR/FNR
+		`getline $2`,       // field 2, NR, FNR
 	}
 	fi := verifIntRange(0, len(forms)-1)
-	src := `NR == 1 { b0 = $0; b1 = $1; bn = NF; bnr = NR; bfnr = FNR; ret = (` + forms[fi] + `); a0 = $0; a1 = $1; an = NF; anr = NR; afnr = FNR; exit }`
+	src := `NR == 1 { b0 = $0; b1 = $1; bn = NF; bnr = NR; bfnr = FNR; ret = (` + forms[fi] + `); a0 = $0; a1 = $1; a2 = $2; an = NF; anr = NR; afnr = FNR; exit }`
 	cfg := &Config{Stdin: bytes.NewReader(main), Output: &bytes.Buffer{}, Error: &bytes.Buffer{}, Environ: []string{}, OpenFile: fs.open}
 	if csv {
 		cfg.InputMode = CSVMode
@@ -133,9 +135,26 @@ func VerifC11Getline() {
 	case 2:
 		verifAssert(same("bnr", "anr") && same("bfnr", "afnr"), "getline < file changed NR or FNR")
 		verifAssert(g("a0").s == verifLines(other)[0], "getline < file did not set $0 to the file's first record")
-	default:
+	case 3:
 		verifAssert(g("anr").n == g("bnr").n+1 && g("afnr").n == g("bfnr").n+1 && g("a0").s == "z", "plain getline must read the next record into $0 and count it in NR and FNR")
+	default:
+		// getline $2 [< file]: the line goes into field 2 only; $1 keeps its value, NF is at least 2
+		if !csv {
+			verifAssert(same("b1", "a1") && g("an").n >= 2, "getline $2 must assign field 2 and leave the other fields alone")
+			p2 := verifGlobal(p, "a2")
+			want := "z"
+			if fi == 4 {
+				want = verifLines(other)[0]
+			}
+			verifAssert(p2.s == want, "getline $2 did not store the line that was read in field 2")
+		}
+		if fi == 4 {
+			verifAssert(same("bnr", "anr") && same("bfnr", "afnr"), "getline $2 < file changed NR or FNR")
+		} else {
+			verifAssert(g("anr").n == g("bnr").n+1 && g("afnr").n == g("bfnr").n+1, "getline $2 must count the record in NR and FNR")
+		}
 	}
+	verifAssert(p.sp == 0, "a getline form left operands on the VM stack")
 	verifAssert(g("ret").n == 1, "getline did not return 1 on success")
 }
 
